@@ -151,10 +151,33 @@ def build_object(name):
         return las
     if name == "api-default-empty":
         return lasio.LASFile()
+    if name == "api-consistent-strt-stop-step":
+        # never read from a file (no index snapshot), header already agrees with the index numerically
+        las = lasio.LASFile()
+        las.append_curve("DEPT", np.array([1000.0, 1000.5, 1001.0]), unit="m")
+        las.append_curve("GR", np.array([50.0, 51.0, 52.0]), unit="gAPI")
+        las.well["STRT"].value = 1000.0
+        las.well["STOP"].value = 1001.0
+        las.well["STEP"].value = 0.5
+        return las
+    if name.startswith("read-then-case-variant-duplicates:"):
+        # a case-insensitive section (read with upper/lower) that later receives case variants of a duplicated name
+        case = name.split(":")[1]
+        text = "\n".join(["~Version", " VERS. 2.0 : v", " WRAP. NO : w", "~Well", " STRT.M 1.0 : s", " STOP.M 3.0 : e", " STEP.M 1.0 : i",
+                          " NULL. -999.25 : n", "~Curves", " DEPT.M : depth", " GR.GAPI : gamma", "~Parameter", " P. 1 : p", "~A",
+                          " 1.0 10.0", " 2.0 20.0", " 3.0 30.0", ""])
+        las = lasio.read(text, mnemonic_case=case)
+        las.append_curve("gr", np.array([1.0, 2.0, 3.0]))
+        las.append_curve("GR", np.array([4.0, 5.0, 6.0]))
+        las.params.append(HeaderItem("p", "", 2, "lower"))
+        las.params.append(HeaderItem("P", "", 3, "upper again"))
+        return las
     raise ValueError(name)
 
 
-BUILT = ["api-dup-blank-all-sections", "api-unique-with-str-curve", "api-stale-suffix-after-delete", "api-default-empty"]
+BUILT = ["api-dup-blank-all-sections", "api-unique-with-str-curve", "api-stale-suffix-after-delete", "api-default-empty",
+         "api-consistent-strt-stop-step", "read-then-case-variant-duplicates:upper", "read-then-case-variant-duplicates:lower",
+         "read-then-case-variant-duplicates:preserve"]
 
 STANDALONE = {
     "header-blank": lambda: HeaderItem("", "u", 1.5, "d"),
